@@ -154,9 +154,20 @@ func (p *Parser) parseHeader(data []byte) (header *parser.PacketHeader, buf []by
 		end := start + 1
 		found = false
 
+		// A quote ends the string unless it is escaped. A backslash preceding the quote
+		// escapes it only if that backslash is not itself escaped (`"a\\"` ends at the last quote).
+		escaped := false
 		for ; end < len(data); end++ {
 			c := data[end]
-			if c == '"' && data[end-1] != '\\' {
+			if escaped {
+				escaped = false
+				continue
+			}
+			if c == '\\' {
+				escaped = true
+				continue
+			}
+			if c == '"' {
 				b := data[start : end+1]
 
 				tmp = make([]byte, len(b)+2)
